@@ -25,6 +25,7 @@ type ServerConnection struct {
 	negotiatedVersion string
 	manager           cert.TlsConfig
 	supportTls        bool
+	requireClientCert bool // the configuration demands a client certificate: only a TLS session can present one
 	secure            bool
 	securityTech      string
 }
@@ -138,6 +139,7 @@ func (sc *ServerConnection) handshake(conn *streams.BufferedInputConnection) err
 			if c, err := sc.manager.GetTlsConfig(); err != nil {
 				log.WithError(err).Warnf("Could not get X509 key pair, will not be able to advertise STARTTLS")
 			} else if c != nil && c.Certificates != nil && len(c.Certificates) > 0 {
+				sc.requireClientCert = c.ClientAuth == tls.RequireAndVerifyClientCert
 				sc.supportTls = true
 				capabilities = append(capabilities, CapabilityStartTls)
 			} else {
@@ -280,6 +282,22 @@ func (sc *ServerConnection) upgrade(conn *streams.BufferedInputConnection) (stre
 			return nil, err
 
 		}
+	}
+
+	if sc.requireClientCert && !sc.secure {
+		// The client did not ask for StartTLS: it cannot present the certificate this server requires
+		response = &Response{
+			Status:     strconv.Itoa(http.StatusForbidden) + " Forbidden",
+			StatusCode: http.StatusForbidden,
+		}
+		err := errors.Errorf("Client certificate required: the session must be upgraded with StartTLS")
+		responseHeaders.Set("Message", err.Error())
+		response.Headers = responseHeaders
+
+		if e := response.Write(conn); e != nil {
+			log.WithError(e).Warnf("Could not write response: %v", e)
+		}
+		return nil, err
 	}
 
 	if e := response.Write(conn); e != nil {
